@@ -118,6 +118,9 @@ Values of token trees are scalars or comma lists of scalars (the right side of `
 class Abs where
   fn : String → List Val → Val
   castF : String → Val → Val
+  /-- the backend's `/` (integer or real division depending on the operands; `Val` has no
+      non-integer numbers, so it stays abstract) -/
+  div : Val → Val → Val
 
 /-- `COALESCE(v₁, …)`: the first value that is not NULL -/
 def coalesceVal (args : List Val) : Val := (args.find? (fun v => v != Val.null)).getD .null
@@ -190,6 +193,7 @@ def stdInf [Abs] (s : Sym) (a b : SV) : SV :=
   | .minus => .s (evalArith .sub a.scalar b.scalar)
   | .star => .s (evalArith .mul a.scalar b.scalar)
   | .percent => .s (evalArith .mod a.scalar b.scalar)
+  | .slash => .s (Abs.div a.scalar b.scalar)
   | _ => .s .null
 
 open SaVerif.Pratt in
